@@ -317,7 +317,10 @@ pub(crate) fn faults_for(ev: &Event) -> Vec<Fault> {
             }
             v
         }
-        "stat" => vec![e(shim::C_STAT, libc::EIO), e(shim::C_STAT, libc::EACCES)],
+        // F_SHORT on a stat: the size reported for a regular file is 0 / 7 bytes although the whole
+        // content can be read (procfs-like and FUSE files, a file that is still growing): st_size
+        // is a hint, never a bound — a benign fault
+        "stat" => vec![e(shim::C_STAT, libc::EIO), e(shim::C_STAT, libc::EACCES), short(shim::C_STAT, 0), short(shim::C_STAT, 7)],
         "open_w" => vec![
             e(shim::C_OPEN_W, libc::EINTR),
             e(shim::C_OPEN_W, libc::EACCES),
@@ -439,7 +442,7 @@ impl Scenario for C20Lib {
             }
             _ => DestState::NotApplicable,
         };
-        let bp = BuilderPath { output_first: w.chance(1, 2), batch_paths: w.chance(1, 2), swap_backend: w.chance(1, 5), swap_late: w.chance(1, 2), legacy_path: mix(seed, 0x1e9ac7) % 5 == 0 };
+        let bp = BuilderPath { output_first: w.chance(1, 2), batch_paths: w.chance(1, 2), swap_backend: w.chance(1, 5), swap_late: w.chance(1, 2), legacy_path: mix(seed, 0x1e9ac7) % 5 == 0, output_mid: mix(seed, 0x0d1d) % 4 == 0 };
         let mut simcfg = SimCfg::simple(root.fork("schedule").next_u64());
         simcfg.entropy = root.fork("hashkeys").next_u64();
         simcfg.stack_kb = *root.fork("layout").pick(&[2048usize, 8192]);
@@ -537,7 +540,7 @@ impl Scenario for C20Lib {
         let hard_write = fired.iter().any(|f| !is_benign(f) && (f.cls == shim::C_WRITE || f.cls == shim::C_WRITE_STDOUT));
         let close_fault = fired.iter().any(|f| f.cls == shim::C_CLOSE);
         // a stat fault on the destination (is_dir) as opposed to one on a source file's fd
-        let stat_dest_fault = rep.events.iter().any(|e| e.call == "stat" && e.fault != "none" && !e.path.starts_with("src/") && !e.path.starts_with("cargo-home"));
+        let stat_dest_fault = rep.events.iter().any(|e| e.call == "stat" && e.fault == "errno" && !e.path.starts_with("src/") && !e.path.starts_with("cargo-home"));
         let real_dest_problem = matches!(p.dest, DestState::MissingParent | DestState::ParentIsFile);
         let delivered: Option<Vec<u8>> = match &p.out {
             OutKind::Stdout => Some(rep.stdout.clone()),
